@@ -120,6 +120,12 @@ func render(v ssa.Value, depth int) string {
 		case token.MUL:
 			switch b := x.X.(type) {
 			case *ssa.FieldAddr:
+				if w, idx := LocalStructField(b); w != nil {
+					if idx >= 0 {
+						return render(w, depth+1) + fmt.Sprintf("#%d", idx)
+					}
+					return render(w, depth+1)
+				}
 				return render(b.X, depth+1) + "." + FieldName(FieldOf(b))
 			case *ssa.FreeVar:
 				if n := canonicalCell(b); n != "" {
@@ -496,7 +502,15 @@ func resolvePhi(v ssa.Value, blocks []*ssa.BasicBlock) ssa.Value {
 		if idx <= 0 {
 			return v
 		}
+		// the block the path came from: the nearest earlier block of the same function (on an interprocedural path the blocks
+		// of a helper stand between the block of its call and that block's successor)
 		pred := blocks[idx-1]
+		for j := idx - 1; j >= 0; j-- {
+			if blocks[j].Parent() == pb.Parent() {
+				pred = blocks[j]
+				break
+			}
+		}
 		found := false
 		for k, p := range pb.Preds {
 			if p == pred {
@@ -514,13 +528,19 @@ func resolvePhi(v ssa.Value, blocks []*ssa.BasicBlock) ssa.Value {
 
 // ResolveOnPath resolves phis in v along a path's blocks.
 func ResolveOnPath(v ssa.Value, p *Path) ssa.Value {
-	v = resolvePhi(v, p.Blocks)
+	for i := 0; i < 6; i++ {
+		w := resolvePhi(spillOnPath(v, p.Blocks), p.Blocks)
+		if w == v {
+			break
+		}
+		v = w
+	}
 	for i := 0; i < 6; i++ {
 		s, ok := p.Sub[v]
 		if !ok {
 			break
 		}
-		v = resolvePhi(s, p.Blocks)
+		v = resolvePhi(spillOnPath(s, p.Blocks), p.Blocks)
 	}
 	return v
 }
@@ -994,6 +1014,24 @@ func expandPath(fn *ssa.Function, p *Path, max, depth int, stack map[*ssa.Functi
 		feasible := true
 		addAtom := func(a Atom) {
 			na := NormAtomSubst(a.Val, a.Taken, sub)
+			// a condition that is a constant on this combination (a helper's boolean result) decides itself
+			{
+				cv, neg := a.Val, false
+				for i := 0; i < 4; i++ {
+					cv = sub.resolve(cv)
+					if u, ok := cv.(*ssa.UnOp); ok && u.Op == token.NOT {
+						cv, neg = u.X, !neg
+						continue
+					}
+					break
+				}
+				if cb, ok := ConstBool(cv); ok {
+					if (cb != neg) != a.Taken {
+						feasible = false
+					}
+					return
+				}
+			}
 			// constant against constant decides itself
 			if bo, ok := a.Val.(*ssa.BinOp); ok && (bo.Op == token.EQL || bo.Op == token.NEQ) {
 				x, y := sub.resolve(bo.X), sub.resolve(bo.Y)
@@ -1025,6 +1063,15 @@ func expandPath(fn *ssa.Function, p *Path, max, depth int, stack map[*ssa.Functi
 		for _, a := range q.Atoms {
 			addAtom(a)
 		}
+		// a condition and its negation on the same (substituted) operands: the caller re-tests what the helper has decided
+		for i := 0; i < len(np.Atoms) && feasible; i++ {
+			for j := i + 1; j < len(np.Atoms); j++ {
+				if contradicts(np.Atoms[i], np.Atoms[j]) {
+					feasible = false
+					break
+				}
+			}
+		}
 		if !feasible {
 			continue
 		}
@@ -1039,6 +1086,16 @@ func expandPath(fn *ssa.Function, p *Path, max, depth int, stack map[*ssa.Functi
 		}
 	}
 	return out
+}
+
+func contradicts(a, b Atom) bool {
+	switch {
+	case a.L == b.L && a.R == b.R:
+		return a.Rel == "==" && b.Rel == "!=" || a.Rel == "!=" && b.Rel == "==" || a.Rel == "true" && b.Rel == "false" || a.Rel == "false" && b.Rel == "true"
+	case a.L == b.R && a.R == b.L:
+		return a.Rel == "<" && b.Rel == "<=" || a.Rel == "<=" && b.Rel == "<"
+	}
+	return false
 }
 
 // neverNil: the value is a call that constructs an error or a value (fmt.Errorf, errors.New) or an allocation.
